@@ -240,9 +240,15 @@ func (me *multiEndpoint) switchFromTo(f, t *endpoint) {
 	timeAfterFunc(me.switchingDelay, func() {
 		me.Lock()
 		defer me.Unlock()
-		if e, ok := me.endpoints[me.future]; ok && e.status == available {
-			me.current = e.id
+		e, ok := me.endpoints[me.future]
+		if !ok || e.status != available {
+			return
 		}
+		if c, exists := me.endpoints[me.current]; exists && c.status == available && c.priority < e.priority {
+			// This switch is outdated: the current endpoint is available and has higher priority.
+			return
+		}
+		me.current = e.id
 	})
 }
 
